@@ -382,7 +382,7 @@ where
     a_enc.encrypt_sk(m, w.a, sk, &enc, &mut xe, &mut xa, scratch.borrow());
     b_enc.encrypt_sk(m, w.b, sk, &enc, &mut xe, &mut xa, scratch.borrow());
     let fail = |what: &str, got: u32, want: u32| Verdict::fail(format!("{what}|wrong-result"), format!("backend={} {what}: decrypts to {got:#010x}, expected {want:#010x}\ncase={w:?}", w.be.name()));
-    let kind = w.kind % 7;
+    let kind = w.kind % 8;
     let name;
     match kind {
         0 => {
@@ -425,6 +425,17 @@ where
             let got = c_enc.decrypt(m, sk, scratch.borrow());
             if got != want {
                 return fail(name, got, want);
+            }
+        }
+        7 => {
+            name = "from_fhe_uint_prepared";
+            // prepared bits (GGSW per bit) back to the packed word, into a used receiver
+            let p = encrypt_prepared(c, w.a, false, w.seed ^ 9, &mut scratch);
+            c_enc.encrypt_sk(m, w.b, sk, &enc, &mut xe, &mut xa, scratch.borrow());
+            c_enc.from_fhe_uint_prepared(m, &p, keys, scratch.borrow());
+            let got = c_enc.decrypt(m, sk, scratch.borrow());
+            if got != w.a {
+                return fail(name, got, w.a);
             }
         }
         6 => {
@@ -470,7 +481,7 @@ where
 }
 
 pub fn bit_test(w: &BitCase) -> Verdict {
-    let alt = w.kind % 7 == 5 && w.seed & 1 == 1;
+    let alt = w.kind % 8 == 5 && w.seed & 1 == 1;
     tag_alt(with_ctx_alt!(w.be, alt, |c| bit_run(c, w)), alt)
 }
 
@@ -495,7 +506,7 @@ fn word_strategy(bootstrap_weight: f64, bes: &'static [Be]) -> BoxedStrategy<Wor
 }
 
 fn bit_strategy(bes: &'static [Be]) -> BoxedStrategy<BitCase> {
-    (0..bes.len(), 0u8..7, any::<u32>(), any::<u32>(), any::<u8>(), any::<u8>(), any::<u64>())
+    (0..bes.len(), 0u8..8, any::<u32>(), any::<u32>(), any::<u8>(), any::<u8>(), any::<u64>())
         .prop_map(move |(bi, kind, a, b, i, j, seed)| BitCase {
             be: bes[bi],
             kind,
@@ -524,7 +535,7 @@ pub fn run(ctx: &Ctx) {
     let _ = (&*CTX_FFT_REF, &*CTX_FFT_AVX, &*CTX_NTT_REF);
     ctx.run_sub("word_ops_prepared_operands", t.pick(480, 6_000), 16, || word_strategy(0.0, BES3), word_test);
     ctx.run_sub("word_ops_and_programs_via_bootstrapping", t.pick(48, 600), 16, || word_strategy(1.0, BES3), word_test);
-    ctx.run_sub("bit_surgery", t.pick(192, 2_400), 16, || bit_strategy(BES3), bit_test);
+    ctx.run_sub("bit_surgery", t.pick(288, 3_200), 16, || bit_strategy(BES3), bit_test);
     crate::c15b::run_all(ctx);
 }
 
@@ -536,7 +547,7 @@ pub fn replay(ctx: &Ctx, sub: &str, case: &serde_json::Value) -> i32 {
     }
 }
 
-pub const RULE: &str = "cases = (backend in FFT64Ref/FFT64Avx/NTT120Ref, word op in add/sub/sll/srl/sra/slt/sltu/and/or/xor/identity, operands from boundary classes (0, 1, 2^31, 2^32-1, alternating patterns, single bits, shift amounts 0..63) and random, operands either encrypted directly as prepared GGSW bits or encrypted as packed FheUint and prepared through circuit bootstrapping, chains of 1..3 operations with re-preparation of the result, a third of the cases through the *_multi_thread entry points with 3/5/6/7/11 threads); bit surgery: sext(byte 0..2), splice_u8/u16 at every (dst, src), get_bit_glwe at every index, get_byte of every byte (into a used receiver), zero_byte, partial preparation fhe_uint_prepare_custom at every (start, count). Oracle: plain Rust u32 result after decryption with the clear key. non-trivial = op != identity with both operands != 0, or program length >= 2. Sub-check swap_selection_retrieval_bootstrapping_cells: cswap of two words (selector GGSW in the radix of the words or in radix 12 / 9), glwe_blind_selection over generated slot subsets, glwe_blind_retrieval_statefull and its inverse on 2^bits..2^bits+2 words, GLWE blind rotation (both forms) and the three GGSW blind rotations by sign * (((k >> rsh) % 2^mask) << lsh), circuit bootstrapping to constant and to exponent (domain 2^1..2^4, every log_gap_out <= log_gap_in); oracle = u32 / index semantics after decryption, negacyclic rotation of the encrypted polynomial, and for every GGSW cell the exact phase under the clear secret (regenerated from the fixed seed of TestContext) minus value * gadget (* s_col) below half a unit of the row's gadget level (one unit for the last row of bootstrapped GGSWs, whose noise reaches 0.49 units on the shipped layout).";
+pub const RULE: &str = "cases = (backend in FFT64Ref/FFT64Avx/NTT120Ref, word op in add/sub/sll/srl/sra/slt/sltu/and/or/xor/identity, operands from boundary classes (0, 1, 2^31, 2^32-1, alternating patterns, single bits, shift amounts 0..63) and random, operands either encrypted directly as prepared GGSW bits or encrypted as packed FheUint and prepared through circuit bootstrapping, chains of 1..3 operations with re-preparation of the result, a third of the cases through the *_multi_thread entry points with 3/5/6/7/11 threads); bit surgery: sext(byte 0..2), splice_u8/u16 at every (dst, src), get_bit_glwe at every index, get_byte of every byte (into a used receiver), from_fhe_uint_prepared (prepared bits back to the packed word), zero_byte, partial preparation fhe_uint_prepare_custom at every (start, count). Oracle: plain Rust u32 result after decryption with the clear key. non-trivial = op != identity with both operands != 0, or program length >= 2. Sub-check swap_selection_retrieval_bootstrapping_cells: cswap of two words (selector GGSW in the radix of the words or in radix 12 / 9), glwe_blind_selection over generated slot subsets, glwe_blind_retrieval_statefull and its inverse on 2^bits..2^bits+2 words, GLWE blind rotation (both forms) and the three GGSW blind rotations by sign * (((k >> rsh) % 2^mask) << lsh), circuit bootstrapping to constant and to exponent (domain 2^1..2^4, every log_gap_out <= log_gap_in); oracle = u32 / index semantics after decryption, negacyclic rotation of the encrypted polynomial, and for every GGSW cell the exact phase under the clear secret (regenerated from the fixed seed of TestContext) minus value * gadget (* s_col) below half a unit of the row's gadget level (one unit for the last row of bootstrapped GGSWs, whose noise reaches 0.49 units on the shipped layout).";
 
 pub fn ctx_infos() -> (usize, usize) {
     let c = &*CTX_FFT_REF;
